@@ -69,22 +69,27 @@ TYPES = {
     "mix": ("(uint8, bool)", ["TUint 8", "TBool"], [200, 1], [(0, 256), (1, 2)], None, None),
     "none": (None, None, [], [], None, None),
 }
-MUTS = {"n": ("nonpayable", "Nonpayable"), "v": ("view", "ViewM"), "p": ("payable", "Payable")}
+MUTS = {"n": ("nonpayable", "Nonpayable"), "v": ("view", "ViewM"), "p": ("payable", "Payable"), "u": ("pure", "Pure")}
 VALUE = 7
 GASKW = 100000
 
 
-def caller_source():
+def dyn_caller_source():
+    """separate contract for the dynamic return types (code size limit)"""
     from vlib import c12_dyn
-    L = [c12_dyn.STRUCTS, "interface C:"]
+    L = [c12_dyn.STRUCTS, "interface C:"] + c12_dyn.iface_lines()
+    L += ["", "t: public(address)", "", "@external", "def set_t(a: address):", "    self.t = a", ""]
+    dl, dfns = c12_dyn.caller_functions()
+    return "\n".join(L + dl), dfns
+
+
+def caller_source():
+    L = ["interface C:"]
     for ty, (vt, *_r) in TYPES.items():
         for m, (mut, _) in MUTS.items():
             ret = f" -> {vt}" if vt else ""
             L.append(f"    def f_{ty}_{m}(x: uint256){ret}: {mut}")
-    L += c12_dyn.iface_lines()
     L += ["", "t: public(address)", "", "@external", "def set_t(a: address):", "    self.t = a", ""]
-    dl, dfns = c12_dyn.caller_functions()
-    L += dl
     fns = []   # (name, ty, mutkey, skip, dflt, value, gas)
 
     def emit(name, ty, m, skip, dflt, value=False, gas=False):
@@ -99,7 +104,7 @@ def caller_source():
         if gas:
             kws.append(f"gas={GASKW}")
         kw = "".join(", " + k for k in kws)
-        callkw = "staticcall" if m == "v" else "extcall"
+        callkw = "staticcall" if m in ("v", "u") else "extcall"
         ret = f" -> {vt}" if vt else ""
         decos = ["@external"] + (["@payable"] if value else [])
         expr = f"{callkw} C(self.t).f_{ty}_{m}(x{kw})"
@@ -108,10 +113,11 @@ def caller_source():
 
     for ty in TYPES:
         has_d = TYPES[ty][4] is not None
-        for m in ("n", "v"):
-            if ty == "none" and m == "v":
+        for m in ("n", "v", "u"):
+            # (callers are mutable -- nonpayable -- functions: view AND pure interface functions must go out by STATICCALL)
+            if ty == "none" and m in ("v", "u"):
                 continue   # a void staticcall statement is rejected by the front end
-            for skip in (False, True):
+            for skip in ((False,) if m == "u" else (False, True)):
                 for dflt in ((False, True) if has_d else (False,)):
                     emit(f"c_{ty}_{m}_{int(skip)}{int(dflt)}", ty, m, skip, dflt)
     for ty in ("u256", "none", "bool"):
@@ -141,7 +147,7 @@ def caller_source():
                     ret, body = f" -> (bool, Bytes[{M}])", f"return raw_call(self.t, d{kw})"
                 L.extend(["@external", f"def {name}(d: Bytes[64]){ret}:", f"    {body}", ""])
                 raws.append((name, M, R, S))
-    return "\n".join(L), fns, raws, dfns
+    return "\n".join(L), fns, raws
 
 
 # ---------------------------------------------------------------- cases
@@ -203,8 +209,8 @@ def install(chain, callee, mode, data):
     ins(callee, 1, len(data))
     assert len(data) <= 32 * NWORDS
     d = data + bytes(-len(data) % 32)
-    for i in range(NWORDS):
-        ins(callee, 2 + i, int.from_bytes(d[32 * i:32 * i + 32], "big") if 32 * i < len(d) else 0)
+    for i in range(len(d) // 32):          # words beyond N are never returned: no need to clear them
+        ins(callee, 2 + i, int.from_bytes(d[32 * i:32 * i + 32], "big"))
 
 
 def decode_raw_output(raw, out):
